@@ -594,7 +594,9 @@ func genC02(r *Rng, tier string) []Case {
 			tag = "ti-random"
 		}
 		if i%10 == 7 { // long target information (a server may send a kilobyte of AV pairs): nothing may be sized by a guess
-			long := []int{440, 460, 468, 470, 480, 500, 700, 1000, 4096, 60000}[(i/10)%10]
+			// ... and up to what a 16-bit length can announce: the NT response is 48 octets longer than the target
+			// information, so 65467 + 20 is the longest that still fits a descriptor and 65468 + 20 the first that does not
+			long := []int{440, 460, 468, 470, 480, 500, 700, 1000, 4096, 60000, 65467, 65468, 65480, 65515}[(i/10)%14]
 			ti, _ = mkAv([]avPair{{id: 2, val: r2.Bytes(long)}, {id: 1, val: r2.Bytes(8)}})
 			tag = "ti-long"
 		}
@@ -610,7 +612,7 @@ func genC02(r *Rng, tier string) []Case {
 		cs = append(cs, Case{Op: "c02.proof", MArgs: p, SArgs: p, Tag: "v2.proof"})
 		// the payloads inside the AUTHENTICATE message, NTLMv2 and NTLMv1
 		fl := c08Flags(r2)
-		if i%2 == 0 {
+		if i%2 == 0 || tag == "ti-long" {
 			fl |= fESS
 		} else {
 			fl &^= fESS
